@@ -179,6 +179,10 @@ func stdSeqRepeat(_ context.Context, arg rel.Value) (rel.Value, error) {
 	return rel.NewNativeFunction("repeat(n)", func(_ context.Context, arg rel.Value) (rel.Value, error) {
 		switch seq := arg.(type) {
 		case rel.String:
+			if n < 0 {
+				// strings.Repeat panics on a negative count; like an array, a string repeated less than once is empty.
+				return rel.None, nil
+			}
 			return rel.NewString([]rune(strings.Repeat(seq.String(), n))), nil
 		case rel.Array:
 			values := []rel.Value{}
